@@ -47,21 +47,21 @@ type heldSigner struct {
 }
 
 type world struct {
-	m       *mon.M
-	tag     string // violation key prefix ("" for the Go agent; "openssh-agent:" when the peer is OpenSSH)
-	model   *agentmodel.Model
-	paths   []*path
-	now     time.Duration
-	sleep   func(time.Duration) // nil: no controllable clock (no Advance, no finite lifetimes)
-	keys    []*testKey          // universe of this sequence
-	others  []*testKey          // keys never added in this sequence
-	hist    []string
-	held    []heldSigner
-	dead    bool // a violation was recorded: stop the sequence
-	nonEmptyPass bool // peer refuses empty passphrases: do not generate them
-	maxWrongUnlock int // budget of wrong unlocks (OpenSSH delays them); <0 = unlimited
-	noConfirm bool
-	ctx     map[string]any
+	m              *mon.M
+	tag            string // violation key prefix ("" for the Go agent; "openssh-agent:" when the peer is OpenSSH)
+	model          *agentmodel.Model
+	paths          []*path
+	now            time.Duration
+	sleep          func(time.Duration) // nil: no controllable clock (no Advance, no finite lifetimes)
+	keys           []*testKey          // universe of this sequence
+	others         []*testKey          // keys never added in this sequence
+	hist           []string
+	held           []heldSigner
+	dead           bool // a violation was recorded: stop the sequence
+	nonEmptyPass   bool // peer refuses empty passphrases: do not generate them
+	maxWrongUnlock int  // budget of wrong unlocks (OpenSSH delays them); <0 = unlimited
+	noConfirm      bool
+	ctx            map[string]any
 }
 
 type hop struct {
@@ -237,6 +237,13 @@ func (w *world) do(h hop) bool {
 			}
 			obs.Keys = append(obs.Keys, agentmodel.KeyObs{Blob: string(k.Blob), Format: k.Format, Comment: k.Comment})
 		}
+		for _, k := range ks {
+			// what List hands out is the caller's: scribbling over it must not reach the agent's state
+			for j := range k.Blob {
+				k.Blob[j] ^= 0x5a
+			}
+			k.Comment, k.Format = "scribbled", "scribbled"
+		}
 		desc = "List()"
 
 	case agentmodel.Signers:
@@ -246,6 +253,22 @@ func (w *world) do(h hop) bool {
 			obs.Keys = append(obs.Keys, agentmodel.KeyObs{Blob: string(s.PublicKey().Marshal()), Format: s.PublicKey().Type()})
 		}
 		desc = "Signers()"
+		if err == nil && !h.p.viaList && !w.model.Locked {
+			// signers handed out by the keyring itself: each must sign for the key it names
+			for _, s := range ss {
+				k := keyOfBlob(s.PublicKey().Marshal())
+				if k == nil {
+					continue
+				}
+				msg := []byte("signer self-test")
+				sig, serr := s.Sign(rand.Reader, msg)
+				if serr != nil || sig == nil || verifySig(k.pub, sig.Format, sig.Blob, msg) != nil {
+					w.fail("keyring-signer-bad-signature", fmt.Sprintf("signer returned by Signers() for %s does not produce a valid signature (err=%v)", k.name, serr), nil)
+					return false
+				}
+				m.Count("keyring_signers_checked", 1)
+			}
+		}
 		if err == nil {
 			w.held = w.held[:0]
 			for _, s := range ss {
